@@ -36,6 +36,7 @@ import (
 	"github.com/php-any/origami/parser"
 	"github.com/php-any/origami/runtime"
 	ohttp "github.com/php-any/origami/std/net/http"
+	"github.com/php-any/origami/std/php"
 )
 
 type CP struct {
@@ -55,6 +56,7 @@ type Op struct {
 }
 
 type Case struct {
+	Scripts bool    `json:"scripts"` // the history contains script-level ops: load the PHP function library
 	Names  []string `json:"names"`
 	Consts []string `json:"consts"`
 	CP     []CP     `json:"cp"`
@@ -316,6 +318,37 @@ func (w *world) doOp(o Op) (st Step) {
 				st.D = -6
 			}
 		}
+	case "cexists", "iexists", "new":
+		// script level, run on VM v: class_exists(N) / interface_exists(N) / new N (all resolve through the VM of
+		// the running context: GetClass+GetOrLoadClass, GetInterface+GetOrLoadInterface, GetOrLoadClass)
+		var src string
+		switch o.Op {
+		case "cexists":
+			src = "echo class_exists(" + strconv.Quote(o.Name) + ") ? \"1\" : \"0\";"
+		case "iexists":
+			src = "echo interface_exists(" + strconv.Quote(o.Name) + ") ? \"1\" : \"0\";"
+		default:
+			src = "$o = new " + o.Name + "(); echo \"1\";"
+		}
+		p := w.parserFor(o.VM)
+		var sb strings.Builder
+		old := data.WriteOutput
+		data.WriteOutput = func(x string) { sb.WriteString(x) }
+		defer func() { data.WriteOutput = old }()
+		st.R = 4
+		st.D = 0
+		prog, acl := p.ParseString(src, "script.zy")
+		if acl != nil {
+			st.Msg = "parse: " + acl.AsString()
+			return
+		}
+		ctx := v.CreateContext(p.GetVariables())
+		w.thrown = nil
+		_, ctl := prog.GetValue(ctx)
+		if ctl == nil && w.thrown == nil && sb.String() == "1" {
+			st.D = 1
+		}
+		return
 	case "const":
 		if acl := v.SetConstant(o.Name, data.NewIntValue(o.Val)); acl != nil {
 			st.R = 1
@@ -468,6 +501,9 @@ func runCase(c *Case) (obs Obs) {
 	w.p = parser.NewParser()
 	w.base = runtime.NewVM(w.p).(*runtime.VM)
 	w.base.SetThrowControl(func(acl data.Control) { w.thrown = acl })
+	if c.Scripts {
+		php.Load(w.base) // class_exists / interface_exists and the rest of the PHP function library
+	}
 	w.base.AddNamespace("App", dir)
 	for _, nm := range c.Names {
 		idx := -1
